@@ -332,6 +332,31 @@ pub fn agg(depth: usize) -> Value {
             }
         }
     }
+    // groups whose rows straddle the executors' 1024-row chunks: sort aggregation over an ordered subquery, hash aggregation,
+    // and a scan of several RowSets; the group key changes every 700 rows
+    for e in [Engine::Mem, Engine::Disk { block: 16 << 10, rowset: 1 }] {
+        let n = 2500i64;
+        let data: Vec<Row> = (0..n).map(|i| vec![Some((i * 7919) % n / 700), if i % 11 == 0 { None } else { Some(i % 5) }]).collect();
+        let mut sqls = vec!["create table big(k int, v int)".to_string()];
+        for part in data.chunks(900) { sqls.push(insert("big", part)); }
+        let q0 = sqls.len();
+        sqls.push(format!("select k, {AGGS} from (select k, v from big order by k) t group by k"));
+        sqls.push(format!("select k, {AGGS} from big group by k"));
+        sqls.push(format!("select k, {AGGS} from (select k, v from big order by k desc) t group by k order by k"));
+        tried += 3;
+        let outs = match run(e, &sqls, &[]) { Ok(o) => o, Err(err) => return found_raw(tried, e, &sqls, &[], sqls.len() - 1, "the session to run".into(), err) };
+        let mut ks: Vec<V> = data.iter().map(|r| r[0]).collect(); ks.sort(); ks.dedup();
+        let want: Vec<Vec<String>> = sorted(ks.iter().map(|k| { let g: Vec<V> = data.iter().filter(|r| r[0] == *k).map(|r| r[1]).collect(); let mut row = vec![sv(*k)]; row.extend(agg_row(&g, g.len())); row }).collect());
+        for j in 0..3 {
+            // the replay script is the schema, a generator description and the query (the literal inserts are 2500 rows long)
+            let script = vec![sqls[0].clone(), format!("-- insert rows (k, v) = (((i * 7919) % {n}) / 700, NULL if i % 11 == 0 else i % 5) for i in 0..{n}, in inserts of 900 rows"), sqls[q0 + j].clone()];
+            match &outs[q0 + j] {
+                Ok(got) if sorted(got.clone()) == want => {}
+                Ok(got) => { if let Some(v) = found(tried, e, &script, &[], 2, format!("{want:?}"), format!("{:?}", sorted(got.clone()))) { return v; } }
+                Err(err) => { if let Some(v) = found(tried, e, &script, &[], 2, format!("{want:?}"), format!("error: {err}")) { return v; } }
+            }
+        }
+    }
     done(tried)
 }
 
